@@ -45,6 +45,7 @@ type ReplayFile struct {
 	Minimised bool               `json:"minimised"`
 	Extra     map[string]any     `json:"extra,omitempty"`
 	Override  *FaultOverride     `json:"fault_override,omitempty"`
+	More      []FaultOverride    `json:"fault_override_more,omitempty"`
 }
 
 type Stats struct {
@@ -268,11 +269,11 @@ func cmdWorker(args []string) int {
 			continue
 		}
 		if ce, ok := eng.(*containerEngine); ok {
-			ce.override = out.override
+			ce.override, ce.more = out.override, out.more
 		}
 		if me, ok := eng.(*multiEngine); ok {
 			if ce, ok := me.parts[i%len(me.parts)].(*containerEngine); ok {
-				ce.override = out.override
+				ce.override, ce.more = out.override, out.more
 			}
 		}
 		rf := eng.Minimise(*prop, *tier, i, tape.Snapshot(), *unknown)
@@ -316,6 +317,7 @@ type faultPos struct {
 type RunOut struct {
 	positions  []faultPos
 	override   *FaultOverride
+	more       []FaultOverride
 	Violations []Violation
 	Steps      int
 	Switches   int
